@@ -25,6 +25,14 @@ Queries (Model/RowAlias.lean):
                                     final result is what it would deliver alone; caller arrays untouched.
   * `C17_selectMeta_available`    : what SelectFieldsFilter hands to PrepareField is `meta ++ selected so far`.
   * `C17_witness_unrepaired_rows` : the pre-repair row append violates all of it when len < cap.
+  * row operations covered: append / select / left, inner, full join (clip + append or nil slice + append), replace
+    (ReplaceField rows, ReplaceField / OverrideFieldMetadata metadata), drop (DropFields), single (SingleField and the
+    ToDatasource/FromDatasource bridges), copy (forward fill), combine (interpolation of two rows; delta / rate through
+    the bridges) — all `make` + fill; handing a slice on (OverrideFieldMetadata rows, Condition, aligned data periods,
+    the aligner's metadata) is no operation at all.  Value suppliers: const, ref, nvl, numeric expression, selector over a
+    condition, cast — functions of the row's values.
+  * `C17_witness_replace_in_place` : building the replaced row with `append(row[:i], v)`, `append(·, row[i+1:]...)`
+                                    overwrites the caller's cell for EVERY capacity.
 -/
 import ShpanVerif.Model.Derive
 import ShpanVerif.Model.RowAlias
@@ -291,6 +299,60 @@ theorem appendMeta_spec {h : Heap Val} {md : Slice} (u : Val) (g : Nat) (w : md.
     view (appendMeta h md u g).1 (appendMeta h md u g).2 = view h md ++ [u] :=
   appendRow_spec (.const u) g w
 
+/-- `make` + fill: one new array, nothing else written; the result reads exactly the cells put in. -/
+theorem allocWith_spec {α : Type} [Inhabited α] (h : Heap α) (cells : List α) (sp : Nat) :
+    Extends h (allocWith h cells sp).1 ∧ (allocWith h cells sp).2.WF (allocWith h cells sp).1 ∧
+    view (allocWith h cells sp).1 (allocWith h cells sp).2 = cells := by
+  refine ⟨extends_push _ _, ?_, ?_⟩
+  · simp [allocWith, Slice.WF, arrOf_append_new]
+  · simp [allocWith, view, arrOf_append_new]
+
+/-- An index write through a slice over the array allocated last stays inside that array. -/
+theorem setIdx_fresh {α : Type} [Inhabited α] (h : Heap α) (cells : List α) (i : Nat) (v : α) :
+    setIdx (allocWith h cells 0).1 (allocWith h cells 0).2 i v = h ++ [cells.set i v] := by
+  unfold setIdx allocWith
+  simp only [List.replicate_zero, List.append_nil, Nat.zero_add]
+  by_cases hi : i < cells.length
+  · simp only [hi, if_true, writeRange, arrOf_append_new]
+    rw [List.set_append_right _ _ (Nat.le_refl _)]
+    simp [List.set_eq_take_append_cons_drop, hi]
+  · simp only [hi, if_false]
+    rw [List.set_eq_of_length_le (Nat.le_of_not_lt hi)]
+
+/-- ReplaceFieldFilter's row function (and the metadata function of ReplaceField / OverrideFieldMetadata): the received
+    slice is only read; the index write lands in the array made by this call. -/
+theorem replaceRow_spec {h : Heap Val} {rec : Slice} (idx : Nat) (f : ValFn) (w : rec.WF h) :
+    Extends h (replaceRow h rec idx f).1 ∧ (replaceRow h rec idx f).2.WF (replaceRow h rec idx f).1 ∧
+    view (replaceRow h rec idx f).1 (replaceRow h rec idx f).2 = (view h rec).set idx (f.eval (view h rec)) := by
+  unfold replaceRow
+  simp only [setIdx_fresh]
+  have hl : (view h rec).length = rec.len := view_length w
+  refine ⟨extends_push _ _, ?_, ?_⟩
+  · simp [allocWith, Slice.WF, arrOf_append_new]
+  · show view (h ++ [_]) (allocWith h (view h rec) 0).2 = _
+    simp only [allocWith, view, arrOf_append_new, List.drop_zero]
+    exact List.take_of_length_le (by simp)
+
+theorem dropRow_spec (h : Heap Val) (rec : Slice) (keep : List Nat) :
+    Extends h (dropRow h rec keep).1 ∧ (dropRow h rec keep).2.WF (dropRow h rec keep).1 ∧
+    view (dropRow h rec keep).1 (dropRow h rec keep).2 = keep.map (fun i => (view h rec).getD i Val.nil) :=
+  allocWith_spec h _ 0
+
+theorem singleRow_spec (h : Heap Val) (rec : Slice) (f : ValFn) :
+    Extends h (singleRow h rec f).1 ∧ (singleRow h rec f).2.WF (singleRow h rec f).1 ∧
+    view (singleRow h rec f).1 (singleRow h rec f).2 = [f.eval (view h rec)] :=
+  allocWith_spec h _ 0
+
+theorem copyRow_spec (h : Heap Val) (rec : Slice) :
+    Extends h (copyRow h rec).1 ∧ (copyRow h rec).2.WF (copyRow h rec).1 ∧
+    view (copyRow h rec).1 (copyRow h rec).2 = view h rec :=
+  allocWith_spec h _ 0
+
+theorem combineRow_spec (h : Heap Val) (a b : Slice) (fs : List ValFn) :
+    Extends h (combineRow h a b fs).1 ∧ (combineRow h a b fs).2.WF (combineRow h a b fs).1 ∧
+    view (combineRow h a b fs).1 (combineRow h a b fs).2 = fs.map (fun f => f.eval (view h a ++ view h b)) :=
+  allocWith_spec h _ 0
+
 theorem selectLoop_spec {base : Heap Val} (fs : List ValFn) :
     ∀ (h : Heap Val) (cur : Slice) (gs : List Nat), Extends base h → Owned base cur → cur.WF h →
       Extends base (selectLoop h cur fs gs).1 ∧ (selectLoop h cur fs gs).2.WF (selectLoop h cur fs gs).1 ∧
@@ -493,6 +555,21 @@ theorem stepR_spec (st : RState) (hwf : RWF st) (op : ROp) :
   | selectMeta src us gs =>
     obtain ⟨e, w, v, _⟩ := selectMeta_spec us gs (reg_WF hwf src)
     exact push_spec hwf e w (by rw [v]; simp [specStepR])
+  | replaceRow src idx f =>
+    obtain ⟨e, w, v⟩ := replaceRow_spec idx f (reg_WF hwf src)
+    exact push_spec hwf e w (by rw [v]; simp [specStepR])
+  | dropRow src keep =>
+    obtain ⟨e, w, v⟩ := dropRow_spec st.heap (st.reg src) keep
+    exact push_spec hwf e w (by rw [v]; simp [specStepR])
+  | singleRow src f =>
+    obtain ⟨e, w, v⟩ := singleRow_spec st.heap (st.reg src) f
+    exact push_spec hwf e w (by rw [v]; simp [specStepR])
+  | copyRow src =>
+    obtain ⟨e, w, v⟩ := copyRow_spec st.heap (st.reg src)
+    exact push_spec hwf e w (by rw [v]; simp [specStepR])
+  | combineRow a b fs =>
+    obtain ⟨e, w, v⟩ := combineRow_spec st.heap (st.reg a) (st.reg b) fs
+    exact push_spec hwf e w (by rw [v]; simp [specStepR])
 
 theorem runR_spec (ops : List ROp) : ∀ (st : RState), RWF st →
     RWF (runR st ops) ∧ Extends st.heap (runR st ops).heap ∧ (runR st ops).vals = specRunR st.vals ops := by
@@ -554,6 +631,11 @@ theorem stepStage_spec {h : Heap Val} {cur : Slice} (s : Stage) (w : cur.WF h) :
   cases s with
   | append f g => exact appendRow_spec f g w
   | select fs gs => exact selectRow_spec fs gs w
+  | replace idx f => exact replaceRow_spec idx f w
+  | drop keep => exact dropRow_spec h cur keep
+  | single f => exact singleRow_spec h cur f
+  | copy => exact copyRow_spec h cur
+  | pass => exact ⟨extends_refl _, w, rfl⟩
 
 theorem stepTask_spec {h : Heap Val} (t : Task) (w : t.cur.WF h) :
     Extends h (stepTask h t).1 ∧ (stepTask h t).2.cur.WF (stepTask h t).1 ∧
@@ -632,17 +714,27 @@ def exR : RState := { heap := exHeap, regs := exRegs }
 def exProg : List ROp :=
   [.appendRow 0 (.const (.int 7)) 2, .appendRow 0 (.ref 1) 0, .selectRow 2 [.ref 0, .const (.int 9), .ref 2] [1, 0],
    .leftJoin 0 [(some 4, 3), (none, 2), (some 6, 3)] [0, 5], .concatJoin [(some 2, 1), (none, 1), (some 5, 3)] [],
-   .appendMeta 3 (.int 102) 1, .appendMeta 3 (.int 103) 0, .selectMeta 3 [.int 200, .int 201] [0, 0, 3]]
+   .appendMeta 3 (.int 102) 1, .appendMeta 3 (.int 103) 0, .selectMeta 3 [.int 200, .int 201] [0, 0, 3],
+   -- registers 12..: replace (self-referring value), drop, single field with nvl / selector / cast reading a nil cell,
+   -- forward-fill copy, a two-row combination (delta), the metadata twin of replace
+   .replaceRow 0 1 (.bin .add (.ref 1) (.ref 1)), .dropRow 0 [1], .singleRow 2 (.nvl (.ref 1) (.const (.int 9))),
+   .singleRow 2 (.selGt (.ref 0) (.ref 1) (.cast (.ref 0)) (.ref 1)), .copyRow 0,
+   .combineRow 0 1 [.bin .sub (.ref 2) (.ref 0), .bin (.rate 4) (.ref 3) (.ref 1)], .replaceRow 3 0 (.const (.int 104)),
+   .appendRow 12 (.ref 1) 0]
 
 example : RWF exR := by decide
 example : (runR exR exProg).vals.drop 4 =
     [[.int 1, .int 2, .int 7], [.int 1, .int 2, .int 2], [.int 5, .int 9, .int 9],
      [.int 1, .int 2, .int 1, .int 2, .int 7, .nil, .nil, .int 5, .int 9, .int 9],
      [.int 5, .nil, .int 1, .int 2, .int 2],
-     [.int 100, .int 101, .int 102], [.int 100, .int 101, .int 103], [.int 200, .int 201]] := by decide
+     [.int 100, .int 101, .int 102], [.int 100, .int 101, .int 103], [.int 200, .int 201],
+     [.int 1, .int 4], [.int 2], [.int 9], [.nil], [.int 1, .int 2], [.int 2, .int 1], [.int 104, .int 101],
+     [.int 1, .int 4, .int 4]] := by decide
 example : (runR exR exProg).heap.take 3 = exHeap := by decide
 example : TWF exHeap [⟨⟨0, 0, 2, 4⟩, [.append (.const (.int 7)) 0, .select [.ref 2] []]⟩,
-                      ⟨⟨0, 0, 2, 4⟩, [.append (.const (.int 8)) 1]⟩] := by decide
+                      ⟨⟨0, 0, 2, 4⟩, [.append (.const (.int 8)) 1]⟩,
+                      ⟨⟨0, 0, 2, 4⟩, [.pass, .replace 0 (.bin .add (.ref 0) (.ref 1)), .copy, .drop [1, 0], .single (.ref 1)]⟩] := by
+  decide
 
 /-- **Witness (D17, pre-repair code).** One source row `[1]` with one spare cell feeds two append pipelines
     (append 7 / append 8).  With `append(record.Value, v)` the first pipeline's row reads `[1, 8]` after the second
@@ -658,6 +750,27 @@ theorem C17_witness_unrepaired_rows :
     src.WF h ∧
     view b.1 a.2 = [.int 1, .int 8] ∧ view b.1 b.2 = [.int 1, .int 8] ∧ b.1.take 1 ≠ h ∧
     view b'.1 a'.2 = [.int 1, .int 7] ∧ view b'.1 b'.2 = [.int 1, .int 8] ∧ b'.1.take 1 = h := by
+  decide
+
+/-- **Witness (in-place replace).** `append(record.Value[:replaceIdx], value)` +
+    `append(newValue, record.Value[replaceIdx+1:]...)` instead of `make` + `copy`: a source row `[1,2,3]` WITHOUT spare
+    capacity, field 1 replaced by `field1 + field1`.  The result of the first execution is right, but it IS the caller's
+    slice: the caller's record (and whatever a sibling pipeline or a join reads through it) now holds 4, the array is
+    written, and executing the same query again yields 8.  The modelled code gives `[1,4,3]` both times and leaves the
+    record alone.  Unlike the append witnesses this one fails for every capacity. -/
+theorem C17_witness_replace_in_place :
+    let h : Heap Val := [[.int 1, .int 2, .int 3]]
+    let src : Slice := ⟨0, 0, 3, 3⟩
+    let f : ValFn := .bin .add (.ref 1) (.ref 1)
+    let a := replaceRowInPlace h src 1 f 0 0
+    let b := replaceRowInPlace a.1 src 1 f 0 0
+    let a' := replaceRow h src 1 f
+    let b' := replaceRow a'.1 src 1 f
+    src.WF h ∧
+    view a.1 a.2 = [.int 1, .int 4, .int 3] ∧ a.2 = src ∧ view a.1 src = [.int 1, .int 4, .int 3] ∧ a.1.take 1 ≠ h ∧
+    view b.1 b.2 = [.int 1, .int 8, .int 3] ∧
+    view b'.1 a'.2 = [.int 1, .int 4, .int 3] ∧ view b'.1 b'.2 = [.int 1, .int 4, .int 3] ∧
+    view b'.1 src = [.int 1, .int 2, .int 3] ∧ b'.1.take 1 = h := by
   decide
 
 end ShpanVerif.Props.C17
